@@ -4,7 +4,7 @@ from ..rules import drivers, adapter, device, observables, step
 META = {
     "title": "emu-sv open-system runs solve the Lindblad equation and stay physical",
     "technique": "static analysis: argument-role binding of the density-matrix stepper, polynomial normal form of "
-                 "the Lindblad superoperator, sibling comparison of the device arms",
+                 "the Lindblad superoperator, sibling comparison of the device arms; flag-definition and branch mapping of the phase-free fast path; provenance of the noise model",
     "design_ref": "DESIGN.md §5 C16",
     "explanation": "ROLE-sv: the density-matrix stepper and DensityMatrix state are selected together exactly when "
                    "the sequence has Lindblad operators; EvolveDensityMatrix.apply has the positional parameter "
